@@ -8,8 +8,8 @@ from vf import cklrun
 PROPERTY = "C17"
 RULE = (
     "Conversions: ckl.date.to_oa_date / to_date on calendar days (quick: 1 Jan, "
-    "28/29 Feb, 1 Mar, 31 Dec of every year 1900-9999 plus random days and "
-    "random times of day; thorough: every day 1900-01-01..9999-12-31) against "
+    "28/29 Feb, 1 Mar, 31 Dec of every year 1-9999 plus random days and "
+    "random times of day; thorough: every day 0001-01-01..9999-12-31) against "
     "Python's proleptic Gregorian ordinals: day number differences equal "
     "ordinal differences and to_date(to_oa_date(d)) == d to the second. "
     "Arithmetic: interpreted programs int(d), decimal(d), date(n), d + n, "
@@ -21,7 +21,11 @@ ASSUMPTIONS = [
     "Python datetime ordinals are the reference calendar",
     "'to the second' = the fields year..second of the returned date, i.e. "
     "what rendering and format_date show, equal the original (no tolerance)",
-    "representable dates = 1900-01-01 .. 9999-12-31 (the statement's domain)",
+    "representable dates = 0001-01-01 .. 9999-12-31 for the conversions (the "
+    "statement's quantifier starts at 1900; earlier years are checked as "
+    "well since a repaired defect lived there) and 1000-01-01 .. 9999-12-31 "
+    "for arithmetic through program text (dates are written and rendered "
+    "with 4-digit years)",
 ]
 
 BASE = datetime.date(1899, 12, 30).toordinal()
@@ -31,7 +35,7 @@ STRIDES = [1, 2, 7, 28, 29, 30, 31, 59, 60, 365, 366, 730, 731, 1461, 36524,
            36525, 146097]
 
 
-LO_ORD = datetime.date(1900, 1, 1).toordinal()
+LO_ORD = datetime.date(1000, 1, 1).toordinal()   # 4-digit years in text
 HI_ORD = datetime.date(9999, 12, 31).toordinal()
 
 
@@ -177,15 +181,21 @@ def prop(case):
     raise ValueError(k)
 
 
+def _iso(dt):
+    # strftime("%Y") does not pad years below 1000
+    return (f"{dt.year:04d}-{dt.month:02d}-{dt.day:02d} "
+            f"{dt.hour:02d}:{dt.minute:02d}:{dt.second:02d}")
+
+
 def _conv_case(dt):
-    return {"kind": "conv", "dt": dt.strftime("%Y-%m-%d %H:%M:%S")}
+    return {"kind": "conv", "dt": _iso(dt)}
 
 
 # --------------------------------------------------------------------- parts
 
 def part_keydays(part, shard, nshards):
     """1 Jan, 28/29 Feb, 1 Mar, 31 Dec of every year (sharded by year)."""
-    for y in range(1900 + shard, 10000, nshards):
+    for y in range(1 + shard, 10000, nshards):
         days = [(1, 1), (2, 28), (3, 1), (12, 31), (1, 2), (12, 30)]
         if is_leap(y):
             days.append((2, 29))
@@ -200,8 +210,8 @@ def part_keydays(part, shard, nshards):
 
 
 def part_alldays(part, shard, nshards):
-    """Every calendar day of the years y = 1900 + shard (mod nshards)."""
-    for y in range(1900 + shard, 10000, nshards):
+    """Every calendar day of the years y = 1 + shard (mod nshards)."""
+    for y in range(1 + shard, 10000, nshards):
         dt = datetime.datetime(y, 1, 1)
         n = 366 if is_leap(y) else 365
         for i in range(n):
@@ -218,9 +228,11 @@ def part_alldays(part, shard, nshards):
 
 def _draw_date(ch):
     y = ch.weighted([(3, None), (1, 1900), (1, 1969), (1, 1970), (1, 9999),
-                     (1, 2000), (1, 2100)])
+                     (1, 2000), (1, 2100), (1, 1899), (1, 1000), (2, "old")])
     if y is None:
         y = ch.int(1900, 9999)
+    elif y == "old":
+        y = ch.int(1000, 1899)
     k = ch.int(0, 9)
     if k == 0:
         m, d = 1, 1
@@ -242,6 +254,9 @@ def part_random_conv(part, n):
     def body(tape):
         ch = TapeChooser(tape)
         dt = _draw_date(ch)
+        if ch.bool(0.1):
+            dt = dt.replace(year=ch.int(1, 999) if not (dt.month == 2 and
+                                                         dt.day == 29) else 4)
         if ch.bool(0.7):
             dt = dt.replace(hour=ch.int(0, 23), minute=ch.int(0, 59),
                             second=ch.int(0, 59))
@@ -257,7 +272,7 @@ def part_random_conv(part, n):
 
 
 def part_arith(part, n):
-    lo = datetime.datetime(1900, 1, 1)
+    lo = datetime.datetime(1000, 1, 1)
     hi = datetime.datetime(9999, 12, 31)
 
     def body(tape):
@@ -285,7 +300,7 @@ def part_arith(part, n):
             f = time_arith_prop(t, off)
             if f:
                 return f, {"kind": "timearith",
-                           "dt": t.strftime("%Y-%m-%d %H:%M:%S"), "n": off}
+                           "dt": _iso(t), "n": off}
             return None
         part.count()
         other = dt + datetime.timedelta(days=off)
@@ -303,9 +318,9 @@ def part_arith(part, n):
 def part_arith_keydays(part, shard, nshards):
     """All key days of every 16th year x the stride set, through the
     interpreter."""
-    lo = datetime.datetime(1900, 1, 1)
+    lo = datetime.datetime(1000, 1, 1)
     hi = datetime.datetime(9999, 12, 31)
-    for y in range(1900 + shard, 10000, nshards * 8):
+    for y in range(1000 + shard, 10000, nshards * 8):
         for m, d in [(1, 1), (12, 31), (2, 28), (3, 1)]:
             dt = datetime.datetime(y, m, d)
             for s in STRIDES:
